@@ -88,6 +88,8 @@ fn verif_grid() {
         "  {\"a\": 3, \"s\": \"4\"}", "\t{\"a\": 4}  ", " [6, {\"a\": true}]", "\u{a0}{\"a\": 5}",
         r#"{"\u0061": 8, "s": "9"}"#, r#"{"o": {"\u0078": 4, "y": {"z": "esc\u0061ped"}}, "\u006c": [3]}"#,
         r#"not json at all"#, r#"{"a": 1"#, r#""#, r#"{"a": 1} trailing"#,
+        // CONVERT parses the JSON string as it stands: padded text is not a number / boolean
+        r#"{"a": 2, "s": " 167"}"#, r#"{"a": 3, "s": "true "}"#, r#"{"a": 4, "s": "\t1.5"}"#, r#"{"a": 5, "s": "12\n"}"#, r#"{"a": " 6", "s": " false"}"#,
     ];
     for (ci, c) in cols.iter().enumerate() {
         let def = format!("CREATE TABLE t(raw = '(.*)', raw[1] => line TEXT, {{ {} }} => v {}{}{}{});", path_text(&c.path), ty_name(c.ty), if c.array { "[]" } else { "" },
